@@ -392,14 +392,15 @@ static string opCompl(const vector<string>& a)
 struct MapReindex : public AbstractReindexF
 {
 	std::map<size_t, size_t> m;
-	virtual StateType operator[](const StateType& s) override { return m.at(s); }
-	virtual StateType at(const StateType& s) const override { return m.at(s); }
+	// states without an entry are mapped to themselves (the model's `lookupFn` does the same)
+	virtual StateType operator[](const StateType& s) override { auto it = m.find(s); return it == m.end() ? s : it->second; }
+	virtual StateType at(const StateType& s) const override { auto it = m.find(s); return it == m.end() ? s : it->second; }
 };
 
 struct MapSym : public TA::AbstractSymbolTranslateF
 {
 	std::map<size_t, size_t> m;
-	virtual TA::SymbolType operator()(const TA::SymbolType& s) override { return m.at(s); }
+	virtual TA::SymbolType operator()(const TA::SymbolType& s) override { auto it = m.find(s); return it == m.end() ? s : it->second; }
 };
 
 // rename <A> <statemap> <symmap> <D>
@@ -590,6 +591,139 @@ static string opNfaHist(const vector<string>& steps)
 }
 
 
+
+// ---------------------------------------------------------------- explicit tree automata: histories (C11, C12)
+static string ruleStr(const TA::Transition& tr)
+{
+	std::ostringstream os;
+	os << tr.GetSymbol() << ":";
+	for (size_t i = 0; i < tr.GetChildren().size(); ++i) { if (i) os << ","; os << tr.GetChildren()[i]; }
+	os << ">" << tr.GetParent();
+	return os.str();
+}
+
+static string joinSorted(vector<string> v, const char* sep)
+{
+	std::sort(v.begin(), v.end());
+	std::ostringstream os;
+	for (size_t i = 0; i < v.size(); ++i) { if (i) os << sep; os << v[i]; }
+	if (v.empty()) os << "-";
+	return os.str();
+}
+
+static RuleT parseRuleTok(const string& r)
+{
+	size_t c = r.find(':'), g = r.find('>');
+	RuleT rt;
+	rt.sym = toN(r.substr(0, c));
+	for (const string& k : split(r.substr(c + 1, g - c - 1), ',')) rt.kids.push_back(toN(k));
+	rt.parent = toN(r.substr(g + 1));
+	return rt;
+}
+
+// all read-only views of one automaton through the public wrappers
+static string viewsTA(const TA& a, const string& tag)
+{
+	std::ostringstream os;
+	vector<string> acc;
+	{
+		auto at = a.GetAcceptTrans();
+		for (auto it = at.begin(); it != at.end(); ++it) acc.push_back(ruleStr(*it));
+	}
+	os << " acc" << tag << "=" << joinSorted(acc, ";");
+	std::set<size_t> used;
+	for (size_t q : a.GetUsedStates()) used.insert(q);
+	os << " used" << tag << "=";
+	{ bool f = true; for (size_t q : used) { if (!f) os << ","; os << q; f = false; } if (f) os << "-"; }
+	os << " te" << tag << "=" << (const_cast<TA&>(a).AreTransitionsEmpty() ? 1 : 0);
+	// indexing by every used state and by two states that may not occur
+	std::set<size_t> probe(used);
+	probe.insert(0); probe.insert(97);
+	os << " down" << tag << "=";
+	bool firstq = true;
+	for (size_t q : probe) {
+		vector<string> rs;
+		auto d = a[q];
+		for (auto it = d.begin(); it != d.end(); ++it) rs.push_back(ruleStr(*it));
+		bool e = d.empty();
+		if (!firstq) os << "/";
+		firstq = false;
+		os << q << "@" << (e ? 1 : 0) << "@" << joinSorted(rs, ";");
+	}
+	// ContainsTransition on every rule the iteration yields
+	bool allc = true;
+	for (const TA::Transition& tr : a) if (!a.ContainsTransition(tr)) allc = false;
+	os << " selfc" << tag << "=" << (allc ? 1 : 0);
+	return os.str();
+}
+
+// tah <step> ... ; after every step every live entry is dumped; views of the touched entry
+static string opTaHist(const vector<string>& steps)
+{
+	vector<std::unique_ptr<TA>> pool;
+	std::ostringstream out;
+	for (size_t k = 0; k < steps.size(); ++k) {
+		vector<string> f = split(steps[k], '!');
+		const string& op = f.at(0);
+		auto ix = [&](size_t i) -> size_t { size_t x = toN(f.at(i)); if (x >= pool.size() || !pool[x]) throw std::invalid_argument("dead entry"); return x; };
+		auto ent = [&](size_t i) -> TA& { return *pool[ix(i)]; };
+		size_t touched = static_cast<size_t>(-1);
+		if (op == "new") { pool.emplace_back(new TA()); touched = pool.size() - 1; }
+		else if (op == "def") { pool.emplace_back(new TA(buildTA(parseTA(f.at(1))))); touched = pool.size() - 1; }
+		else if (op == "copy") { pool.emplace_back(new TA(ent(1))); touched = pool.size() - 1; }
+		else if (op == "copynt") { pool.emplace_back(new TA(ent(1), false, true)); touched = pool.size() - 1; }
+		else if (op == "copynf") { pool.emplace_back(new TA(ent(1), true, false)); touched = pool.size() - 1; }
+		else if (op == "assign") { ent(1) = ent(2); touched = ix(1); }
+		else if (op == "selfassign") { TA& a = ent(1); a = *&a; touched = ix(1); }
+		else if (op == "move") { size_t i = ix(1); pool.emplace_back(new TA(std::move(*pool[i]))); pool[i].reset(); touched = pool.size() - 1; }
+		else if (op == "moveassign") { size_t i = ix(1), j = ix(2); if (i != j) { *pool[i] = std::move(*pool[j]); pool[j].reset(); } touched = i; }
+		else if (op == "kill") { pool[ix(1)].reset(); }
+		else if (op == "add") { RuleT r = parseRuleTok(f.at(2)); ent(1).AddTransition(r.kids, r.sym, r.parent); touched = ix(1); }
+		else if (op == "addt") { RuleT r = parseRuleTok(f.at(2)); ent(1).AddTransition(TA::Transition(r.parent, r.sym, r.kids)); touched = ix(1); }
+		else if (op == "final") { ent(1).SetStateFinal(toN(f.at(2))); touched = ix(1); }
+		else if (op == "finals") { std::set<StateType> qs; for (const string& q : split(f.at(2), ',')) qs.insert(toN(q)); ent(1).SetStatesFinal(qs); touched = ix(1); }
+		else if (op == "erasefinal") { ent(1).EraseFinalStates(); touched = ix(1); }
+		else if (op == "clear") { ent(1).Clear(); touched = ix(1); }
+		else if (op == "unreach") { pool.emplace_back(new TA(ent(1).RemoveUnreachableStates())); touched = pool.size() - 1; }
+		else if (op == "useless") { pool.emplace_back(new TA(ent(1).RemoveUselessStates())); touched = pool.size() - 1; }
+		else if (op == "cand") { pool.emplace_back(new TA(ent(1).GetCandidateTree())); touched = pool.size() - 1; }
+		else if (op == "reduce") { pool.emplace_back(new TA(ent(1).Reduce())); touched = pool.size() - 1; }
+		else if (op == "union") { pool.emplace_back(new TA(TA::Union(ent(1), ent(2)))); touched = pool.size() - 1; }
+		else if (op == "uniondisj") { pool.emplace_back(new TA(TA::UnionDisjointStates(ent(1), ent(2)))); touched = pool.size() - 1; }
+		else if (op == "isect") { pool.emplace_back(new TA(TA::Intersection(ent(1), ent(2)))); touched = pool.size() - 1; }
+		else if (op == "isectbu") { pool.emplace_back(new TA(TA::IntersectionBU(ent(1), ent(2)))); touched = pool.size() - 1; }
+		else if (op == "reindex") {
+			MapReindex fn; for (auto& p : parseMap(f.at(2))) fn.m[p.first] = p.second;
+			pool.emplace_back(new TA(ent(1).ReindexStates(fn))); touched = pool.size() - 1;
+		}
+		else if (op == "reindexinto") {
+			MapReindex fn; for (auto& p : parseMap(f.at(3))) fn.m[p.first] = p.second;
+			ent(1).ReindexStates(ent(2), fn); touched = ix(2);
+		}
+		else if (op == "probe") {
+			// ContainsTransition on given rules (both overloads), IsStateFinal on given states
+			TA& a = ent(1);
+			string bits;
+			for (const string& r : split(f.at(2), ';')) {
+				RuleT rt = parseRuleTok(r);
+				bool b1 = a.ContainsTransition(rt.kids, rt.sym, rt.parent);
+				bool b2 = a.ContainsTransition(TA::Transition(rt.parent, rt.sym, rt.kids));
+				bits += (b1 == b2) ? (b1 ? '1' : '0') : 'X';
+			}
+			out << " cont" << k << "=" << bits;
+			string fb;
+			for (const string& q : split(f.at(3), ',')) fb += a.IsStateFinal(toN(q)) ? '1' : '0';
+			out << " isf" << k << "=" << (fb.empty() ? "-" : fb);
+			touched = ix(1);
+		}
+		else throw std::invalid_argument("unknown step " + op);
+		out << " S" << k;
+		for (size_t i = 0; i < pool.size(); ++i) if (pool[i]) out << " " << k << "." << i << "=" << dumpTA(*pool[i]);
+		if (touched != static_cast<size_t>(-1) && pool[touched]) out << " t" << k << "=" << touched << viewsTA(*pool[touched], std::to_string(k));
+	}
+	return out.str().substr(1);
+}
+
 // ---------------------------------------------------------------- LTS simulation engine
 // lts <n> <edges q,a,r;...|-> <partition b/b/... with b = q,q,... | -> <block relation i.j,... | -> <outputSize> <overload 0|1|2>
 static string opLts(const vector<string>& a)
@@ -648,6 +782,7 @@ static string runCase(const string& kind, const vector<string>& args)
 	if (kind == "rename") return opRename(args);
 	if (kind == "nfah") return opNfaHist(args);
 	if (kind == "lts") return opLts(args);
+	if (kind == "tah") return opTaHist(args);
 	return "BADKIND";
 }
 
